@@ -293,7 +293,7 @@ Proof.
 Qed.
 
 Definition may_close (o : eop) : bool :=
-  match o with EConnect _ _ _ _ _ _ _ _ | EPublish _ _ _ _ _ | EPing _ _ | EDisconnect _ _ | EProtoError _ _ | EEof _ _ => true | _ => false end.
+  match o with EConnect _ _ _ _ _ _ _ _ | EBadConnect _ _ | EPublish _ _ _ _ _ | EPing _ _ | EDisconnect _ _ | EProtoError _ _ | EEof _ _ => true | _ => false end.
 
 Theorem closed_needs_cause seen cl o c : Closed c ∈ (step seen cl o).2 → may_close o = true.
 Proof.
@@ -311,6 +311,7 @@ Proof.
   - by apply elem_of_nil in Hin.
   - by apply elem_of_nil in Hin.
   - apply elem_of_list_singleton in Hin. done.
+  - pose proof (with_session_closed cl c0 (λ k i n s, (cl, dl s)) ltac:(intros; apply dl_closed)) as Hq. unfold quiet in Hq. rewrite Forall_forall in Hq. by specialize (Hq _ Hin).
   - by apply elem_of_nil in Hin.
 Qed.
 
@@ -554,3 +555,39 @@ Proof.
   cbn [fst]. specialize (IH (setn cl i sr.1) i). rewrite setn_length, getn_setn in IH by done. rewrite L1, L2 in IH. cbn [n_log n_coff n0 set_coff] in IH.
   destruct IH as [I1 I2]; [done|lia|]. cbn zeta in I1, I2. rewrite I1, I2. split; [done|]. lia.
 Qed.
+
+(** ** a failing or hostile connection touches only its own session (C18) *)
+Lemma alookup_adel_other {A} k r (l : list (string * A)) : r ≠ k → alookup r (adel k l) = alookup r l.
+Proof. intros. by apply alookup_adel_ne. Qed.
+(* the registry entries of every other session survive the end of session [s] *)
+Theorem end_spares_other_sessions cl i s clk r : r ≠ ss_id s →
+  alookup r (n_reg (after_unsub cl i s clk)) = alookup r (n_reg (getn cl i)).
+Proof. intros Hr. rewrite end_leaves_registry. by apply alookup_adel_ne. Qed.
+(* ... and so do their session records and the in-flight table and identifier pool of the node *)
+Lemma fold_mutate_misc (s : sess) clk ts : ∀ n,
+  let n' := fold_left (λ m t, mutate m (sub_delete (n_d m) (ss_id s) t clk)) ts n in
+  n_acks n' = n_acks n ∧ n_pool n' = n_pool n ∧ n_log n' = n_log n ∧ n_coff n' = n_coff n ∧ d_ret (n_d n') = d_ret (n_d n).
+Proof. induction ts as [|t ts IH]; intros n; cbn [fold_left]; [done|]. destruct (IH (mutate n (sub_delete (n_d n) (ss_id s) t clk))) as (?&?&?&?&?). done. Qed.
+Theorem end_spares_node_state cl i s clk : let n' := after_unsub cl i s clk in let n := getn cl i in
+  n_acks n' = n_acks n ∧ n_pool n' = n_pool n ∧ n_log n' = n_log n ∧ n_coff n' = n_coff n ∧ d_ret (n_d n') = d_ret (n_d n)
+  ∧ d_sess (n_d n') = d_sess (n_d n).
+Proof.
+  cbn zeta. unfold after_unsub. destruct (fold_mutate_misc s clk (ss_topics s) (set_reg (getn cl i) (adel (ss_id s) (n_reg (getn cl i))))) as (?&?&?&?&?).
+  repeat split; try done. by rewrite fold_mutate_sess.
+Qed.
+(* the subscriptions it tombstones are its own: entries keyed by another session id are untouched *)
+From Wasp Require Import Proofs.Lww Proofs.DStateFacts.
+Lemma fold_mutate_subs (s : sess) clk ts : ∀ n, subs_wf (d_subs (n_d n)) → ∀ pat sid, sid ≠ ss_id s →
+  abs_subs (d_subs (n_d (fold_left (λ m t, mutate m (sub_delete (n_d m) (ss_id s) t clk)) ts n))) (pat, sid) = abs_subs (d_subs (n_d n)) (pat, sid).
+Proof.
+  induction ts as [|t ts IH]; intros n Hwf pat sid Hne; cbn [fold_left]; [done|].
+  assert (Hstep : subs_wf (d_subs (n_d (mutate n (sub_delete (n_d n) (ss_id s) t clk)))) ∧
+                  abs_subs (d_subs (n_d (mutate n (sub_delete (n_d n) (ss_id s) t clk)))) (pat, sid) = abs_subs (d_subs (n_d n)) (pat, sid)).
+  { cbn [mutate sub_delete fst snd set_d set_out n_d with_subs d_subs].
+    destruct (sub_set_abs (d_subs (n_d n)) (Sub (ss_id s) t (d_peer (n_d n)) 0 0 clk) Hwf) as [Hw Ha]. split; [done|].
+    rewrite Ha. apply amerge1_other. unfold sub_key. cbn. congruence. }
+  destruct Hstep as [Hw Ha]. rewrite IH by done. exact Ha.
+Qed.
+Theorem end_spares_other_subscriptions cl i s clk pat sid : subs_wf (d_subs (n_d (getn cl i))) → sid ≠ ss_id s →
+  abs_subs (d_subs (n_d (after_unsub cl i s clk))) (pat, sid) = abs_subs (d_subs (n_d (getn cl i))) (pat, sid).
+Proof. intros Hwf Hne. unfold after_unsub. by rewrite fold_mutate_subs. Qed.
